@@ -312,7 +312,7 @@ def check(repo: Repo, R) -> None:
     if "c18" not in shared.ATTACHING:
         shared.ATTACHING.append("c05")
         try:
-            R.run(_c05.check, repo, shared.Retag(R, lambda r: "C18.6-passes-keep-namespace-and-views-paired" if r.startswith("C05.3") else None,
+            R.run(_c05.check, repo, shared.Retag(R, lambda r: "C18.6-passes-keep-namespace-and-views-paired" if (r.startswith("C05.3") or r.startswith("C05.1")) else None,
                                                 "after elaboration an instance bundle's name still answers in get() and attribute access while the `instbundles` view is empty: the namespace no longer matches the views or the export"))
         finally:
             shared.ATTACHING.pop()
